@@ -49,6 +49,7 @@ def sensitivity(ck, prop, root):
     # independently authored changes under /verif/seeded/<id>/ that target this property
     import glob, json as _json, shutil, subprocess, tempfile
     verif = os.path.join(os.path.dirname(os.path.abspath(__file__)), "..")
+    todo = []
     for d in sorted(glob.glob(os.path.join(verif, "seeded", "*"))):
         try:
             meta = _json.load(open(os.path.join(d, "meta.json")))
@@ -56,6 +57,10 @@ def sensitivity(ck, prop, root):
             continue
         if meta.get("property") != prop:
             continue
+        todo.append((d, meta))
+
+    def one_seed(dm):
+        d, meta = dm
         tmp = tempfile.mkdtemp(prefix="sa-seed-")
         try:
             shutil.copytree(os.path.join(root or os.environ.get("VERIF_REPO", "/repo"), "pdpy11"), os.path.join(tmp, "pdpy11"))
@@ -68,6 +73,10 @@ def sensitivity(ck, prop, root):
                 outcome = f"exit {c.returncode} {fired[:4]}"
         finally:
             shutil.rmtree(tmp, ignore_errors=True)
+        return d, meta, outcome
+    with concurrent.futures.ThreadPoolExecutor(8) as tex:
+        seed_results = list(tex.map(one_seed, todo))
+    for d, meta, outcome in seed_results:
         ck.instance(("independent", os.path.basename(d)), {"independently seeded change": os.path.basename(d), "summary": meta.get("summary", "")[:160], "outcome": outcome})
         if not (outcome.startswith("exit 1") or outcome.startswith("skipped")):
             ck.note(f"sensitivity: independently seeded change {os.path.basename(d)} is not reported by this property's check: {outcome}")
